@@ -242,7 +242,7 @@ func genScripts(seed uint64, tier string, tries int) []script {
 	out = append(out, genExhaustive("exh-hot1x2", nil, []int{2}, n, false, r)...)
 	out = append(out, genExhaustive("exh-hot2x1", nil, []int{1, 1}, n, false, r)...)
 	out = append(out, genExhaustive("exh-cold1x1-hot1x1", []int{1}, []int{1}, n, false, r)...)
-	nrand := 5000
+	nrand := 4000
 	if tier == "thorough" {
 		nrand = 80000
 		out = append(out, genExhaustive("exh-cold1x2-hot1x1", []int{2}, []int{1}, n, false, r)...)
